@@ -23,7 +23,7 @@ from harness import ops
 from harness import oracles
 from harness import surface
 
-DEPS = checks_seq.MODEL + ['Spec/Pipeline.v', 'Proofs/C04.v', 'Proofs/C16.v', 'Proofs/C15.v']
+DEPS = checks_seq.MODEL + ['Spec/Pipeline.v', 'Spec/ExcSpec.v', 'Proofs/C04.v', 'Proofs/C16.v', 'Proofs/C15.v', 'Proofs/C15x.v']
 U = ops.uuid_of
 SVC = {'x-roles': 'admin,service'}
 REJECT = (400, 404, 405, 406, 415)
